@@ -127,6 +127,24 @@ def rename_specs(srcs, rels, limit, rng):
 _SRCS = None
 
 
+class _IfSwap(ast.NodeTransformer):
+    """if c: A else: B  ->  if not (c): B else: A   (only plain if/else, elif chains are left alone)"""
+
+    def visit_If(self, n):
+        self.generic_visit(n)
+        if n.orelse and not (len(n.orelse) == 1 and isinstance(n.orelse[0], ast.If)):
+            t = n.test
+            nt = t.operand if isinstance(t, ast.UnaryOp) and isinstance(t.op, ast.Not) else ast.UnaryOp(op=ast.Not(), operand=t)
+            n.test, n.body, n.orelse = nt, n.orelse, n.body
+        return n
+
+
+def v_ifswap(srcs, rel):
+    t = _IfSwap().visit(ast.parse(srcs[rel]))
+    ast.fix_missing_locations(t)
+    return {**srcs, rel: ast.unparse(t) + "\n"}
+
+
 def build_variant(spec):
     global _SRCS
     if _SRCS is None:
@@ -139,6 +157,8 @@ def build_variant(spec):
         return v_shift(srcs)
     if kind == "noise":
         return v_noise(srcs)
+    if kind == "ifswap":
+        return v_ifswap(srcs, spec[1])
     _, rel, lineno, fname, name = spec
     t2 = ast.parse(srcs[rel])
     target = [f for f in ast.walk(t2) if isinstance(f, (ast.FunctionDef, ast.AsyncFunctionDef)) and f.lineno == lineno and f.name == fname][0]
@@ -183,7 +203,7 @@ def main():
             w = l.split()
             if len(w) > 2 and w[2] in ("FALSE-ALARM", "cannot-decide", "CRASH"):
                 sp = w[1].split(":")
-                spec = (sp[0],) if len(sp) == 1 else (sp[0], sp[1], int(sp[2]), sp[3], sp[4])
+                spec = (sp[0],) if len(sp) == 1 else (sp[0], sp[1]) if sp[0] == "ifswap" else (sp[0], sp[1], int(sp[2]), sp[3], sp[4])
                 jobs.append((w[0], spec))
                 if w[0] not in props:
                     props.append(w[0])
@@ -193,6 +213,8 @@ def main():
             print(f"{prop}: unchanged tree gives {code}: {msg}")
             continue
         specs = [("reformat",), ("shift",), ("noise",)] + rename_specs(srcs, sorted(consulted), max_rename, rng)
+        if "--ifswap" in sys.argv:
+            specs = [("ifswap", rel) for rel in sorted(consulted)]
         jobs += [(prop, s) for s in specs]
     tally = collections.Counter()
     per = collections.defaultdict(collections.Counter)
